@@ -631,6 +631,23 @@ const CORPUS: &[&str] = &[
 	".addr 0x100;\n.du32 A / B;\n.const A, 1;\n.const B, 0;", ".addr 0x100;\n.du32 A << B;\n.const A, 1;\n.const B, 64;", ".addr 0x100;\n.du32 A - B;\n.const A, -9223372036854775807;\n.const B, 2;",
 	".addr 0x100;\nLDR R0, [R1 + X];\n.const X, 4;", ".addr 0x100;\nLDR R0, [X + R1];\n.const X, 128;", ".addr 0x100;\nPUSH {R0, X};\n.const X, 4;", ".addr 0x100;\nMOVS X, 1;\n.const X, 4;",
 	".addr 0x100;\n.const A, A;", ".addr 0x100;\n.const A, B;\n.const B, 1;", ".addr 0x100;\nA:\n.const A, 1;", ".addr 0x100;\n.const A, 1;\nA:", ".addr 0x100;\n.align A;\nA:",
+	// audit-C: branches of arm6m/mod.rs, data.rs, align.rs, eval.rs that no generated case of the model-compared streams reached
+	".addr 0x100; CPSIE f; CPSID I; cpsie i; CPSID if; CPSIE R0;", ".addr 0x100; CPSIE 1; DMB ish; dsb Sy; ISB 15;", ".addr 0x100; SEV; WFE; sev; wfe; WFI; YIELD;",
+	".addr 0x100; LDRSB R0, [R1]; LDRSH R0, [R1 + 4]; LDRSH R0, [4 + R1]; LDRSB R0, [R1 + R2];", ".addr 0x100; LDRSB R0, [R1 + X]; LDRSH R7, [r2 + r0]; X:",
+	".addr 0x100; MRS R0, APSR; MRS R1, iapsr; MRS R2, EAPSR; MRS R3, XPSR; MRS R4, IPSR; MRS R5, EPSR; MRS R6, IEPSR; MRS R7, MSP; MRS R8, PSP; MRS R9, PRIMASK; MRS R10, CONTROL;",
+	".addr 0x100; MSR APSR, R0; MSR iapsr, R1; MSR EAPSR, R2; MSR XPSR, R3; MSR IPSR, R4; MSR EPSR, R5; MSR IEPSR, R6; MSR MSP, R7; MSR PSP, R8; MSR PRIMASK, R9; MSR control, R10;",
+	".addr 0x100; MRS R0, FOO; MRS R0, CONTROLXX; MRS R0, CONTROLX; MRS R0, R1; MRS APSR, R1; MSR R0, R1; MSR APSR, APSR; MRS R0, 5; MSR FOO, R0;", ".addr 0x100; MRS R13, APSR;", ".addr 0x100; MSR APSR, PC;",
+	".addr 0x100; MOVS R0, MSP; MOVS R0, msp + 0; .du32 MSP;", ".addr 0x100; .const MSP, 1;", ".addr 0x100; PRIMASK:", ".addr 0; .const r00, 1; .const R16, 2; MOVS R0, r00; MOVS R1, R16; .const CONTROLL, 1; .const primask, 2;",
+	".addr 0x100; LDR R0, [R1 + 0x100000000]; LDR R0, [0x100000000 + R1]; LDR R0, [R1 + 0x80000000]; LDR R0, [R1 - 4]; STR R0, [R1 + (0-0x80000001)];", ".addr 0x100; LDR R0, [R1 + 0x7FFFFFFF];",
+	".addr 0x100; LDR R0, [FOO]; LDR R0, [R1 + FOO]; LDR R0, [FOO + R1]; LDR R0, [4 + FOO]; LDR R0, [MSP + 4]; LDR R0, [R1 + MSP]; STRB R0, [R16];", ".addr 0x100; LDR R0, [FOO + 4]; .const FOO, 1;",
+	".addr 0x100; LDR R0, [X]; LDR R0, [R1 + X + Y]; LDR R0, [X + R1 + Y]; LDR R0, [R1 + R2 + Z]; LDR R0, [R1 * 1]; LDR R0, [(R1)]; LDR R0, [[R1]]; .const X, 4; .const Y, 4; .const Z, 0;",
+	".addr 0x100; .du32 {1/0}; .du32 {X}; .du32 {1, X, 1/0}; .du32 f(1); .du32 f(1/0); .du32 f(X); .du32 [1/0]; .du32 [X]; MOVS R0, f(1); PUSH {R0, 1/0}; PUSH {R0, X}; X:", ".addr 0x100; .du32 {UNDEF9};",
+	".addr 0x100; RSBS R0, R1, 1; RSBS R0, R1, X; BKPT 256; SVC 256; UDF.N 256; UDF.W 65536; SVC -1; BKPT X + 1; .const X, 255;", ".addr 0x100; ADD R0, R1, X; .const X, 1;", ".addr 0x100; ADD R0, SP, X; CMP R8, X; .const X, 4;",
+	".addr 0x104; .align 1024; NOP;", ".addr 0x101; .align 256; .align 512; .du8 1; .align 0x300; NOP;", ".addr 0xFFFFFC01; .align 512; .align 1024;", ".addr 0x100; NOP; .addr 0x0; .du8 1; .align 512;",
+	".addr 0x100; .dhex \"\u{e9}0\";", ".addr 0x100; .dhex \"0\\u{A0}1\";", ".addr 0x100; .dhex \"aAfF0\u{ff19}\";", ".addr 0x100; .dstr \"\u{e9}\\u{1F600}\";",
+	".addr 0x100; .du8 256; MOVS R0, \"s\"; NOP R0; .du8 X; .du8 X; .global X; X:", ".addr 0x100; .global X; .du8 (X * 0) + Y; MOVS R0, Y + X; Y:", ".global X; .import X;", ".global X; .export X;",
+	".addr 0x100; .global X; .const X, 1; .export X;", ".addr 0x100; .const X, 1; .export X; .global X;", ".addr 0x100; .const X, 1; .export X; .import X;",
+	".addr 0x104; X: B Y; .addr 0x100; NOP; NOP; Y: .du8 1;", ".addr 0xFFFFFFFC; BL X; X: B X;", ".addr 0xFFFFFFFE; BL X; X:",
 ];
 
 /// multi-file witnesses: include cycles (F21) in several spellings, a missing file, a directory
